@@ -92,19 +92,37 @@ Corollary long_instance_selects tm R st i r : in_i32 i ->
 Proof. intros H. rewrite long_instance_tag_dispatch, int_roundtrip by exact H. reflexivity. Qed.
 
 (* ================= C01: scalars at a struct-field position of the decoder model ================= *)
+(* readField on a scalar field first consumes class definitions (readScalarTag); none of the scalar
+   readers accepts the definition tag, so whenever the field reader proper succeeds there was no
+   definition to consume *)
+Lemma rf_core_def_err te tm R t st r x : scalar_type t = true -> rf_core te tm R t st (67 :: r) <> Ok x.
+Proof.
+  intros S H. destruct t as [| k | | | | | | | | | | |]; try discriminate S; cbn [rf_core] in H.
+  - vm_compute in H. discriminate H.
+  - unfold dec_field_kind in H. destruct (kind_wire_int k); vm_compute in H; discriminate H.
+  - vm_compute in H. discriminate H.
+  - vm_compute in H. discriminate H.
+  - vm_compute in H. discriminate H.
+Qed.
+Lemma rf_step_of_core te tm R t st bs x : rf_core te tm R t st bs = Ok x -> rf_step te tm R t st bs = Ok x.
+Proof.
+  intros H. unfold rf_step. destruct bs as [|tag r]; [exact H|].
+  destruct (scalar_type t) eqn:S; [|exact H]. destruct (Z.eqb_spec tag g_objectDefTag) as [->|N]; [|exact H].
+  exfalso. exact (rf_core_def_err _ _ _ _ _ _ _ S H).
+Qed.
 Theorem field_int_roundtrip te tm R k z st rest bs : in_kind k z -> enc_kind k z = Ok bs ->
   rf_step te tm R (TInt k) st (bs ++ rest) = Ok (DInt k z, rest, st).
 Proof.
-  intros Hk He. unfold rf_step. pose proof (kind_field_exact_or_error k z rest Hk) as F. rewrite He in F. rewrite F. reflexivity.
+  intros Hk He. apply rf_step_of_core. unfold rf_core. pose proof (kind_field_exact_or_error k z rest Hk) as F. rewrite He in F. rewrite F. reflexivity.
 Qed.
 Theorem field_string_roundtrip te tm R rs st rest : Forall valid_rune rs ->
   rf_step te tm R TStr st (encode_string rs ++ rest) = Ok (DStr rs, rest, st).
-Proof. intros H. unfold rf_step. rewrite string_roundtrip by exact H. reflexivity. Qed.
+Proof. intros H. apply rf_step_of_core. unfold rf_core. rewrite string_roundtrip by exact H. reflexivity. Qed.
 Theorem field_double_roundtrip te tm R b st rest bs : in_f64 b -> gencodeDouble b = Ok bs ->
   exists d, rf_step te tm R TF64 st (bs ++ rest) = Ok (DF64 d, rest, st) /\ feq d b = true.
 Proof.
   intros Hb He. destruct (double_roundtrip b rest bs Hb He) as (d & D & F). exists d. split; [|exact F].
-  unfold rf_step. rewrite D. reflexivity.
+  apply rf_step_of_core. unfold rf_core. rewrite D. reflexivity.
 Qed.
 Theorem field_bool_roundtrip te tm R (b : bool) st rest :
   rf_step te tm R TBool st ((if b then g_boolTrueTag else g_boolFalseTag) :: rest) = Ok (DBool b, rest, st).
